@@ -261,6 +261,9 @@ func genReply(t *rapid.T) replyCase {
 	}
 	c.PZ = gen.ProcessZone(t, "process.zone")
 	n := rapid.IntRange(1, 3).Draw(t, "datagrams")
+	if c.Op == "GetDevices" {
+		n = rapid.IntRange(1, 7).Draw(t, "datagrams.discovery")
+	}
 	for i := 0; i < n; i++ {
 		var b []byte
 		l, ok := spec.Responses[c.Op]
@@ -271,6 +274,16 @@ func genReply(t *rapid.T) replyCase {
 			fillRandom(t, b, 8)
 			if c.Op == "GetDevices" {
 				spec.PutLE32(b[4:], gen.U32(t, "serial"))
+				if rapid.IntRange(0, 2).Draw(t, "serial.pool") != 0 {
+					// a few controllers that answer more than once, in any order, and replies without a serial number
+					spec.PutLE32(b[4:], rapid.SampledFrom([]uint32{0, 405419896, 405419896, 303986753, 303986753, 201020304}).Draw(t, "serial.known"))
+					if rapid.Bool().Draw(t, "serial.identical") {
+						for j := 8; j < 64; j++ {
+							b[j] = byte(j) // (byte-identical duplicates too)
+						}
+						copy(b[28:32], []byte{0x20, 0x24, 0x01, 0x31})
+					}
+				}
 			}
 		case k == 7:
 			b = genBytes(t).B
@@ -667,6 +680,7 @@ func props() []rp.Prop {
 		rp.P[api.Case]{Name: "args", Checks: n, Gen: genArgs, Check: checkArgs},
 		rp.P[cfgCase]{Name: "config", Checks: n / 10, Gen: genCfg, Check: checkCfg},
 		rp.P[localCase]{Name: "local-layouts", Sweep: sweepLocal, Check: checkLocal},
+		rp.P[dayText]{Name: "weekday-text", Checks: n / 8, Gen: genDayText, Check: checkDayText},
 		rp.P[addrText]{Name: "address-text", Checks: n / 4, Gen: genAddrText, Check: checkAddrText},
 		rp.P[faultCase]{Name: "network-faults", Checks: ev.Pick(600, 40000) / ev.Shards(), Gen: genFault, Check: checkFault},
 		rp.P[slowCase]{Name: "slow-consumer", Sweep: func(yield func(slowCase) bool) {
